@@ -106,9 +106,9 @@ def get_emit_kwarg(decorator_list, emit_call, emit_name, name_tpl, name):
             "json_schema": {
                 "identifier": _name,
             },
-            "sqlalchemy": {"table_name": _name},
-            "sqlalchemy_hybrid": {"table_name": _name},
-            "sqlalchemy_table": {"table_name": _name},
+            "sqlalchemy": {"table_name": _name, "class_name": _name},
+            "sqlalchemy_hybrid": {"table_name": _name, "class_name": _name},
+            "sqlalchemy_table": {"table_name": _name, "name": _name},
         }[emit_name]
     )(None if name == "infer" else ensure_valid_identifier(name_tpl.format(name=name)))
 
